@@ -15,10 +15,6 @@ Local Open Scope string_scope.
 Definition digest_id_in_range (v : Z) : Prop := (0 <= v < 2147483648)%Z.
 Definition digest_id_in_range_b (v : Z) : bool := ((0 <=? v) && (v <? 2147483648))%Z.
 
-(* recorded finding F3: the digest-id constructor applied to i32::MIN *)
-Definition Known_C09_F3 (i : Z) : Prop := i = (-2147483648)%Z.
-Definition known_c09_f3_b (i : Z) : bool := (i =? -2147483648)%Z.
-
 (* ---------- digest algorithms by their ISO names ---------- *)
 
 Definition iso_hash (name : bytes) : option (bytes -> bytes) :=
@@ -298,10 +294,3 @@ Definition digest_values_distinct_b (o : issued) : bool :=
     end
   | _ => false
   end.
-
-(* is the digestID i32::MIN anywhere in the document (F3 reaching an issued document)? *)
-Definition f3_id (c : cbor) : bool := cbor_eqb c (CNInt 2147483647).
-Definition mentions_f3_ns (ibs : list bytes) : bool :=
-  existsb (fun ib => match parse_item ib with Some s => f3_id (si_id s) | None => false end) ibs.
-Definition mentions_f3 (o : issued) : bool :=
-  existsb (fun x => mentions_f3_ns (snd x)) (o_namespaces o).
